@@ -1,1 +1,2 @@
-
+(* C18 — property theorems (stage 0: thin loop) *)
+From G01 Require Import Via ViaCheck ViaProofs Ob18.
